@@ -283,7 +283,7 @@ func genStream(r *lib.Rng, n int) []uint64 {
 	case 0:
 		base = 0
 	case 1:
-		base = uint64(r.Intn(1 << 20)) * freq
+		base = uint64(r.Intn(1<<20)) * freq
 	case 2:
 		base = (^uint64(0))/freq*freq - uint64(r.Intn(4))*freq // close to 2^64
 	}
